@@ -26,7 +26,8 @@ EXTENDS Integers, Sequences
 
 CONSTANTS MaxLen,             \* lengths 0 .. MaxLen
           MaxOps,             \* operations per history
-          LowerBoundChecked   \* TRUE: the wrapper as it must be
+          LowerBoundChecked,  \* TRUE: the wrapper as it must be
+          WithDel             \* TRUE: histories may delete items (replayed on the MAKE_SEQ_PROPERTY style only)
 
 Lens == 0..MaxLen
 Idx(n) == (-(2 * n) - 2)..(2 * n + 1)      \* every class of index around both ends
@@ -66,8 +67,19 @@ Set(i, v) ==
                            r |-> IF RefIn(i) THEN 0 ELSE -99, m |-> IF MechIn(i) THEN 0 ELSE -99, a |-> ItemsOf(cells')])
   /\ UNCHANGED n
 
+\* del o[i] (MAKE_SEQ_PROPERTY with a remover): the items after cell i move down, the length shrinks by one; an index
+\* out of range raises IndexError and changes nothing.  (Modelled for the reference and the checked mechanism alike: the
+\* deviation without a lower bound is exhibited by Set.)
+Shift(c, j) == [k \in DOMAIN c |-> IF k >= j /\ k < n - 1 THEN c[k + 1] ELSE IF k = n - 1 THEN -1 ELSE c[k]]
+Del(i) ==
+  /\ WithDel
+  /\ IF RefIn(i) THEN cells' = Shift(cells, RefCell(i)) /\ mcells' = Shift(mcells, RefCell(i)) /\ n' = n - 1
+                 ELSE UNCHANGED <<cells, mcells, n>>
+  /\ hist' = Append(hist, [op |-> "del", i |-> i, v |-> 0, r |-> IF RefIn(i) THEN 0 ELSE -99, m |-> IF RefIn(i) THEN 0 ELSE -99,
+                           a |-> IF RefIn(i) THEN [k \in 1..(n - 1) |-> Shift(cells, RefCell(i))[k - 1]] ELSE ItemsOf(cells)])
+
 Next == /\ Len(hist) < MaxOps
-        /\ \E i \in Idx(n) : Get(i) \/ \E v \in Vals : Set(i, v)
+        /\ \E i \in Idx(n) : Get(i) \/ Del(i) \/ \E v \in Vals : Set(i, v)
 
 Spec == Init /\ [][Next]_vars
 
@@ -79,5 +91,5 @@ Refines == mcells = cells /\ \A k \in 1..Len(hist) : hist[k].r = hist[k].m
 GuardIntact == \A k \in DOMAIN cells : (k < 0 \/ k >= n) => cells[k] = -1 /\ mcells[k] = -1
 \* an operation that raises leaves the object unchanged (action property)
 ErrorChangesNothing == [][(hist' # hist /\ hist'[Len(hist')].r = -99) => cells' = cells]_vars
-LengthFixed == [][n' = n]_vars
+LengthFixed == [][n' = n \/ (n' = n - 1 /\ hist'[Len(hist')].op = "del" /\ hist'[Len(hist')].r = 0)]_vars
 =============================================================================
